@@ -11,7 +11,8 @@ Close Scope Q_scope.
 
 (* ---------------------------------------------------------------------------------------------
    values *)
-Inductive key : Type := KStr (s : list N) | KInt (z : Z).
+(* a non-integral float key is (2h+1) / 2^e: every such float has exactly one (h, e) *)
+Inductive key : Type := KStr (s : list N) | KInt (z : Z) | KFlt (h : Z) (e : positive).
 
 Inductive pv : Type :=
 | PMissing                                   (* pg.MISSING_VALUE *)
@@ -99,6 +100,7 @@ Definition key_eqb (k k' : key) : bool :=
   match k, k' with
   | KStr a, KStr b => str_eqb a b
   | KInt a, KInt b => Z.eqb a b
+  | KFlt h e, KFlt h' e' => Z.eqb h h' && Pos.eqb e e'
   | _, _ => false
   end.
 
@@ -133,15 +135,21 @@ Definition same_type (a b : pv) : bool :=
 
 (* _key_order(k) = (_type_order(k), k), compared as Python compares tuples.  (If the table gave int and
    str keys the same rank Python would raise on k < k'; that table is rejected by [ranks_ok].) *)
-Definition krank (k : key) : list N := match k with KStr _ => r_str t | KInt _ => r_int t end.
+Definition knum (k : key) : option Q :=
+  match k with
+  | KInt z => Some (inject_Z z)
+  | KFlt h e => Some (Qmake (2 * h + 1) (2 ^ e))
+  | KStr _ => None
+  end.
+Definition krank (k : key) : list N := match k with KStr _ => r_str t | KInt _ => r_int t | KFlt _ _ => r_float t end.
 Definition key_cmp (k k' : key) : comparison :=
   match str_cmp (krank k) (krank k') with
   | Eq =>
-    match k, k' with
-    | KInt a, KInt b => Z.compare a b
-    | KStr a, KStr b => str_cmp a b
-    | KInt _, KStr _ => Lt
-    | KStr _, KInt _ => Gt
+    match knum k, knum k' with
+    | Some p, Some q => Qcompare p q
+    | Some _, None => Lt
+    | None, Some _ => Gt
+    | None, None => match k, k' with KStr a, KStr b => str_cmp a b | _, _ => Eq end
     end
   | c => c
   end.
@@ -387,7 +395,7 @@ Fixpoint nodup_keys {A} (l : list (key * A)) : bool :=
 Definition all_ranks : list (list N) :=
   [r_missing t; r_none t; r_bool t; r_int t; r_float t; r_str t; r_list t; r_tuple t; r_dict t].
 Definition name_ok (name : list N) : bool := negb (existsb (str_eqb name) all_ranks).
-Definition str_key (k : key) : bool := match k with KStr _ => true | KInt _ => false end.
+Definition str_key (k : key) : bool := match k with KStr _ => true | _ => false end.
 
 Fixpoint cmp_ok (f : fam) (v : pv) : bool :=
   match v with
@@ -423,7 +431,7 @@ End WithTable.
    wire format
    value ::= (0) MISSING | (1) None | (2 b) | (3 z) | (4 m e) | (5 str) | (6 sym (v ...)) list
            | (7 (v ...)) tuple | (8 sym ((key v) ...)) dict | (9 str ((key v) ...) uid) object
-   key   ::= (0 str) | (1 z)
+   key   ::= (0 str) | (1 z) | (2 h e)   the float (2h+1)/2^e
    case  ::= (0 a b ops same) -> (eq ne lt gt (hash-a hash-b equal) ops?)  same = 1: a and b are one Python object;
                                   ops = 1: a is an instance of a class with use_symbolic_comparison: also print ==, !=, hash();
                                   ops = 2: a is an instance of a class without it: also print ==, !=
@@ -434,6 +442,7 @@ Definition d_key (x : tr) : option key :=
   match x with
   | L [I 0%Z; s] => do s' <- dstr s; Some (KStr s')
   | L [I 1%Z; I z] => Some (KInt z)
+  | L [I 2%Z; I h; I (Zpos e)] => Some (KFlt h e)
   | _ => None
   end.
 
